@@ -52,7 +52,7 @@ type caseCfg struct {
 
 func (c *caseCfg) header() []string {
 	return []string{"et=" + tr.B(c.et), "chunk=" + tr.I(c.chunk), "bufcap=" + tr.I(c.bufcap), "proto=" + c.proto,
-		"reuseport=" + tr.B(c.reuseport), "sndbuf=" + tr.I(c.sndbuf), "loops=" + tr.I(c.loops), "focus=" + c.focus}
+		"reuseport=" + tr.B(c.reuseport), "sndbuf=" + tr.I(c.sndbuf), "loops=" + tr.I(c.loops), "pollopt=" + tr.B(pollOpt), "focus=" + c.focus}
 }
 
 type peer struct {
@@ -371,6 +371,9 @@ func runCase(w *tr.Writer, seed uint64, idx int, focus string) {
 		for _, fd := range rec.sockets {
 			head = append(head, tr.L("listen", tr.I(fd), tr.B(cfg.udp)))
 		}
+	}
+	if pollOpt {
+		head = append(head, tr.L("listen", "-1", "1")) // build variant: dispatch through attachments
 	}
 	rec.mu.Unlock()
 
